@@ -17,8 +17,11 @@ LEVEL_TEXT = ("Unbounded proof: for every well-formed method (any graph: loops, 
               "modelled worklist iteration ends, R[v] is exactly the set of definitions that reach the entry of v along some "
               "path without an intervening redefinition, and the definitions linked to each use are exactly the reaching "
               "ones (nearest earlier definition in the node, else those reaching the node entry; parameters included); a "
-              "register defined nowhere gets no row. Termination of the iteration is not proved: the model reports "
-              "running out of fuel as an error and the statements exclude it (it never happens on the runs). The model is "
+              "register defined nowhere gets no row. The iteration always ends (every pass of the loop body strictly lowers queue "
+              "length + degree * room left in the sets, which only grow and hold definitions of the method only): on any fuel "
+              "from steps_bound(m) on the modelled run returns one and the same state, and that state is the path solution; "
+              "the executable analysis uses a smaller fixed fuel and either returns that state or reports OutOfFuel (never on "
+              "the runs). The model is "
               "compared with the real build_def_use / reach_def_analysis (UD, DU, R) on every run.")
 LEVEL_NOTE = ("Trusted: Coq kernel; coq/Dad/ReachDefModel.v as a rendering of BasicReachDef (sets as sorted lists; the dummy "
               "entry node as node n; the dummy exit node, which has no instructions and no successors, left out), "
